@@ -19,6 +19,7 @@ var Registry = map[string]func(tier string) int{
 	"C13": C13,
 	"C14": C14,
 	"C15": C15,
+	"C16": C16,
 	"C17": C17,
 	"C18": C18,
 	"C20": C20,
